@@ -5,6 +5,7 @@ import CstModel.Driver.RedArea
 import CstModel.Driver.TextArea
 import CstModel.Driver.SerdeArea
 import CstModel.Driver.DeriveArea
+import CstModel.Driver.ConcArea
 open Cst Cst.Drv
 
 def sessionStep (s : DState) : List String → Option (DState × String)
@@ -23,6 +24,7 @@ def sessionStep (s : DState) : List String → Option (DState × String)
     | some n => some ({ s with threshold := n }, "ok")
     | none => some (s, "bad-op")
   | ["case", n] => some (s.resetCase, s!"case {n}")
+  | ["note", _] => some (s, "ok")
   | ["reset"] => some ({ s.resetCase with statics := [], mask := 0xFFFFFFFF }, "ok")
   | _ => none
 
@@ -54,7 +56,10 @@ def stepLine (s : DState) (line : String) : DState × String :=
                 | none =>
                   match deriveStep s ws with
                   | some r => r
-                  | none => (s, "bad-op")
+                  | none =>
+                    match concStep s ws with
+                    | some r => r
+                    | none => (s, "bad-op")
 
 partial def loop (h : IO.FS.Stream) (out : IO.FS.Stream) (s : DState) : IO Unit := do
   let line ← h.getLine
